@@ -111,7 +111,8 @@ TYPE_POOL = ['int', 'integer', 'text', 'varchar', 'numeric', 'bigint']
 STR_BODIES = ['', 'a', 'abc', 'hello world', 'it', 'x;y', 'a;', '--no',
               '/* no */', '(', ')', '(x', 'select 1', 'end', 'begin', 'é',
               'ÄÖ', 'a,b', '100%', 'a b  c', 'WHERE', 'x = 1', '0',
-              'long string with several words in it', '$$', '#', 'a.b']
+              'long string with several words in it', '$$', '#', 'a.b',
+              'a\\b', 'C:\\tmp;D:\\data']
 QNAME_BODIES = ['q', 'my col', 'select', 'a;b', 'a--b', 'x/*y', 'a.b', 'T 1',
                 'Order', 'from', 'é', 'x y z', '(p)', 'end', 'a,b']
 # double-quoted only: a doubled quote inside the name
@@ -742,7 +743,12 @@ class Gen:
                 self.kw('ALL')
             else:
                 self.kw(op)
-            self.select_core(max(depth - 1, 0), top=True)
+            if rng.random() < 0.3:
+                o = self.open_paren('req')       # ... EXCEPT (select ...)
+                self.select_core(max(depth - 1, 0), top=True)
+                self.close_paren(o)
+            else:
+                self.select_core(max(depth - 1, 0), top=True)
             self.s.features.add('setop')
 
     # ------------------------------------------------------------ others
